@@ -28,6 +28,17 @@ static void leaf(const std::vector<std::string>& w)
 		case 2: if (mc == 1) cap_case<N1>(mc, log); else if (mc == 3) cap_case<N3>(mc, log); else if (mc == 5) cap_case<N5>(mc, log); else puts("?mc"); return;
 		default: cap_case<HashBucketOpen8>(mc, log); return; }
 	}
+	if (w.size() == 2)
+	{	// sh <kind> <hashCode>: the short-hash functions (translator validation)
+		size_t kind = std::stoull(w[0]), hc = std::stoull(w[1]);
+		typedef internal::HashSetBucketItemTraits<IT> BIT;
+		unsigned r;
+		if (kind == 0) r = internal::BucketLimP4<BIT, 4, MemPoolParams<>, true>::pvCalcShortHash(hc);
+		else if (kind == 1) r = internal::BucketOpen2N2<BIT, 3, true>::pvCalcShortHash(hc);
+		else r = internal::BucketOpenN1<BIT, 3, true>::ptCalcShortHash(hc);
+		printf("%u\n", r);
+		return;
+	}
 	if (w.size() == 5)
 	{	// idx <probing> <hashCode> <log> <idx> <probe>
 		size_t probing = std::stoull(w[0]), hc = std::stoull(w[1]), log = std::stoull(w[2]), idx = std::stoull(w[3]), probe = std::stoull(w[4]);
